@@ -22,6 +22,19 @@ DESC = {
  'C14-percent-threshold': ('C14', 'apply_filters: threshold computed from min_freq rounded to whole percent', '>= 3 samples and a --min-freq with more than two decimals that hits an integer threshold exactly (2/3 of 3)'),
  'C03-noconst-chunks-exact': ('C03', 'filter/NoConst rewritten: compares disjoint pairs of samples only (chunks_exact(2) for windows(2))', '>= 3 samples all present with alleles equal within each disjoint pair, e.g. C C A'),
  'C11-offset-dropped-depth3': ('C11', 'parallel_append: the top half of the recursive split gets offset split_point instead of offset + split_point', 'merge depth 3: --threads >= 8 with >= 70 input files'),
+ 'C01-upper-not-cleared-after-N': ('C01', 'SplitKmer::build: `upper` is not cleared when a window attempt is abandoned at an N', 'an N within the first k-1 bases of a record, or two Ns less than k apart, with non-A bases before it'),
+ 'C02-build-restart-bound-ge': ('C02', 'SplitKmer::build: bound check after skipping an N uses >= (top-of-function check left correct)', 'an invalid base exactly k+1 positions before the record end; the reverse-complemented record keeps the k-mer'),
+ 'C03-build-guard-flipped-ge': ('C03', 'SplitKmer::build: end-of-sequence guard rewritten as seq_len <= idx + k', 'a contig (or stretch after an N) of exactly k bases'),
+ 'C04-first-kmer-pos-hoisted': ('C04', 'RefSka::new: first split k-mer of each contig gets pos = half_split_len instead of get_middle_pos()', 'a reference contig with an N within its first k bases'),
+ 'C05-idxcheck-prev-end-reset': ('C05', 'IdxCheck::new: running total reset to the last contig length instead of accumulating', 'ska map -f vcf with a reference of >= 3 contigs'),
+ 'C06-percent-threshold-divceil': ('C06', 'apply_filters: threshold = (nsamples * round(min_freq*100)).div_ceil(100)', 'a --min-freq with more than two decimals whose dropped fraction crosses an integer (3 samples, 0.334)'),
+ 'C07-merge-swap-bigger-dict': ('C07', 'generic_modes::merge swaps the dictionaries when the incoming file has more than twice the k-mers merged so far', 'a later input with more than 2x the k-mers of everything merged before it'),
+ 'C08-delete-reduce-counts': ('C08', 'delete_samples subtracts the removed columns from the stored counts instead of recounting', 'a file saved by weed --filter-ambig-as-missing, then delete of one of two carriers of a k-mer (one plain, one ambiguous base)'),
+ 'C10-merge-inflated-counts-trusted': ('C10', 'MergeSkaArray::new counts cells != 0 (gaps of loaded arrays count); filter trusts stored counts at or above the threshold', 'ska merge with a multi-sample input that lacks a k-mer in one sample, then a --min-freq between the true and the inflated count'),
+ 'C12-strict-skips-middle-qual': ('C12', 'SplitKmer::build skips the strict quality test at the middle position', 'strict rule, a base below --min-qual exactly at offset (k-1)/2 from a read start or restart, read longer than k'),
+ 'C13-refska-exact-reserve-len-k': ('C13', 'RefSka::new: iterator only created when num_bases - k > 0', 'a weed/reference record of exactly k bases (plus a longer record, otherwise a loud panic)'),
+ 'C14-distance-empty-early-return': ('C14', 'MergeSkaArray::distance returns an empty Vec when no variable row is left', 'all samples identical, or --min-freq removing every non-constant k-mer'),
+ 'C16-nthash-fwd-only-rotl-k': ('C16', 'NtHashIterator::roll_fwd: single-strand early return removes the outgoing base with rotl(k) instead of rotl(k-1)', '--single-strand, FASTQ, --min-count >= 2, the same k-mer at different positions in reads'),
 }
 for sid, (prop, what, needs) in DESC.items():
     d = os.path.join(S, sid)
